@@ -171,6 +171,8 @@ func ruleC07(c *Ctx) {
 			c.check(good, "C07-R6", fname, "stores to the decryptCert cell", "-", "cell holds "+v, "the decryption certificate variable is assigned "+v)
 		}
 		c.count("C07-R3/handlers", nIter)
+		c.count("C07-R1/tree-additions", plaintextProvenance(c, "C07-R1"))
+		c.floor("C07-R1/tree-additions", 1)
 	}
 	c.floor("C07-R3/handlers", 1)
 
@@ -893,6 +895,76 @@ func traversalAlwaysRuns(c *Ctx, rule string, res *Result, tag string) {
 	}
 	c.count(rule+"/success-paths", n)
 	c.floor(rule+"/success-paths", 2)
+}
+
+// plaintextProvenance (backward direction of C07-R1): whatever decryptAssertions adds to the tree is the root of
+// parseResponse over the very bytes DecryptBytes returned, for the EncryptedAssertion decoded from the element the
+// handler is processing. A plaintext taken from anywhere else (a cache keyed by unauthenticated data, a second source)
+// puts content into a verified tree that its signature does not cover.
+func plaintextProvenance(c *Ctx, rule string) int {
+	da := c.kernel("(*SAMLServiceProvider).decryptAssertions", "*", "-(*SAMLServiceProvider).getDecryptCert", "-types.(*EncryptedAssertion).DecryptBytes", "-parseResponse")
+	if da == nil {
+		return 0
+	}
+	fname := shortFn(da.Root)
+	n := 0
+	for _, t := range da.Terms {
+		for _, e := range t.St.events {
+			if e.Kind != EvCall || len(e.Args) < 2 {
+				continue
+			}
+			sn := shortName(e.Callee)
+			if sn != "(*etree.Element).AddChild" && sn != "(*etree.Element).InsertChildAt" && sn != "(*etree.Element).InsertChild" {
+				continue
+			}
+			n++
+			child := stripIface(e.Args[len(e.Args)-1])
+			pos := c.P.InstrPos(e.Instr)
+			what := "element added to the tree is the parsed plaintext of the element being processed"
+			fail := func(why string) {
+				o := c.bad(rule, fname, what, pos, why)
+				o.Path = t.pathDesc(c.P)
+			}
+			rc, ok := child.(*CallV)
+			if !ok || shortName(rc.Callee) != "(*etree.Document).Root" || len(rc.Args) != 1 {
+				fail("decryptAssertions adds " + ap(child) + " to the tree, which is not the root of a freshly parsed document")
+				continue
+			}
+			var parse, dec *Event
+			for _, u := range t.St.events {
+				if u.Kind == EvCall && u.Seq < e.Seq && shortName(u.Callee) == "parseResponse" && len(u.Res) > 0 && u.Res[0].Key() == rc.Args[0].Key() {
+					parse = u
+				}
+			}
+			if parse == nil {
+				fail("the added element is the root of " + ap(rc.Args[0]) + ", which parseResponse did not produce on this path")
+				continue
+			}
+			for _, u := range t.St.events {
+				if u.Kind == EvCall && u.Seq < parse.Seq && strings.HasSuffix(shortName(u.Callee), "(*types.EncryptedAssertion).DecryptBytes") && len(u.Res) > 0 && u.Res[0].Key() == parse.Args[0].Key() {
+					dec = u
+				}
+			}
+			if dec == nil {
+				fail("the bytes parsed back into the tree are " + ap(parse.Args[0]) + ", not the result of DecryptBytes on this path")
+				continue
+			}
+			// the EncryptedAssertion that was decrypted is the one decoded from the handler's element
+			recv := dec.Args[0]
+			src := ""
+			for _, d := range decodes(t) {
+				if d.Obj.Key() == recv.Key() && d.Ev.Seq < dec.Seq {
+					src = d.Prov
+				}
+			}
+			if !strings.Contains(src, "desc(") && !strings.Contains(src, "iter") {
+				fail("the decrypted EncryptedAssertion (" + ap(recv) + ") was decoded from " + src + ", not from the element the traversal handed to the handler")
+				continue
+			}
+			c.ok(rule, fname, what, pos, "Root(parseResponse(DecryptBytes(decoded from "+src+")))")
+		}
+	}
+	return n
 }
 
 // freshTargetsInHandlers: inside a traversal handler every xml.Unmarshal target is allocated by that very invocation.
